@@ -183,9 +183,9 @@ Proof.
   - apply Nat.le_max_l.
   - etransitivity; [apply IH, Hin | apply Nat.le_max_r].
 Qed.
-(* every card fits the value stack above all the locals of main *)
+(* every card fits the value stack above all the locals of main (and the one it may declare) *)
 Definition depth_ok5 (cards : list card) : bool :=
-  forallb (fun c => Nat.ltb (S (length (names_end [] cards) + stmt_depth5 c)) Vm.stack_size) cards.
+  forallb (fun c => Nat.ltb (S (S (length (names_end [] cards) + stmt_depth5 c))) Vm.stack_size) cards.
 
 (* ------------------------------------------------------------------ meaning *)
 Definition sets_local (x : str) (v : RefSem.value) (R : lstore) : lstore :=
